@@ -67,3 +67,13 @@ Example C14_nontrivial :
    d_term (sess_state x) = 4 /\ match x with SLeader _ => True | _ => False end /\
    tr = [ESetTerm 4 true; ESetVoteCand 1 true; ESetVoteTerm 4 true]).
 Proof. vm_compute. repeat split. Qed.
+
+(* Tie 2 (translator, every run): the decision tree of requestPreVote, regenerated from raft.go
+   (Model/GenTrees.v), answers what Model/Node.v request_prevote answers for every state and request, and
+   on NO path calls anything but readers (no setState, setCurrentTerm, persistVote, setLastContact, store write):
+   "pre-vote handlers change nothing" holds of the source text itself *)
+From RaftModel Require Import GenTrees Trees.
+From RaftProofs Require Import GenTreesSpec GenTreesProofs.
+Theorem C14_regenerated_requestPreVote_is_the_model_and_changes_nothing : request_prevote_tree_agrees.
+Proof. exact request_prevote_tree_agrees_holds. Qed.
+Print Assumptions C14_regenerated_requestPreVote_is_the_model_and_changes_nothing.
